@@ -133,11 +133,11 @@ Lemma step_enq F limit s e s' t c : step F limit s e = Some s' -> lookup t (clie
   exists c', lookup t (clients s') = Some c' /\ enq c' = enq c ++ ev_frames e.
 Proof.
   intros St L. destruct e as [metas frames ws|order|t' ws]; cbn [step ev_frames] in *.
-  - unfold step_wake in St. destruct (blimit limit <? len frames) eqn:Lim; [discriminate|].
-    apply N.ltb_ge in Lim. destruct frames as [|f fr].
+  - unfold step_wake in St. destruct (_ || _) eqn:Lim; [discriminate|].
+    apply orb_false_iff in Lim. destruct Lim as [Lim _]. apply N.ltb_ge in Lim. destruct frames as [|f fr].
     + injection St as <-. cbn [clients]. right. exists c. rewrite app_nil_r. auto.
     + remember (f :: fr) as frames. cbn [clients] in St.
-      destruct (fan_out F (blimit limit) frames ws (clients s)) as [[cs' rm]|] eqn:Fo; [|discriminate].
+      destruct (fan_out F (lim_of F limit) frames ws (clients s)) as [[cs' rm]|] eqn:Fo; [|discriminate].
       injection St as <-. rewrite fold_remove_lookup.
       destruct (existsb (fun k => k =? t) rm) eqn:Ex; auto. right.
       destruct (fan_out_lookup _ _ _ _ t _ _ _ _ Fo L) as (d & c' & F1 & L' & Hd).
@@ -167,11 +167,11 @@ Lemma step_none F limit s e s' t : step F limit s e = Some s' -> t < next_token 
   lookup t (clients s) = None -> lookup t (clients s') = None /\ t < next_token s'.
 Proof.
   intros St Lt L. destruct e as [metas frames ws|order|t' ws]; cbn [step] in *.
-  - unfold step_wake in St. destruct (blimit limit <? len frames); [discriminate|].
+  - unfold step_wake in St. destruct (_ || _); [discriminate|].
     destruct frames as [|f fr].
     + injection St as <-. auto.
     + remember (f :: fr) as frames. cbn [clients] in St.
-      destruct (fan_out F (blimit limit) frames ws (clients s)) as [[cs' rm]|] eqn:Fo; [|discriminate].
+      destruct (fan_out F (lim_of F limit) frames ws (clients s)) as [[cs' rm]|] eqn:Fo; [|discriminate].
       injection St as <-. rewrite fold_remove_lookup, fold_remove_next. split.
       * destruct (existsb (fun k0 => k0 =? t) rm); auto.
         rewrite maybe_dec_clients. cbn [clients]. eapply lookup_keys; [|exact L]. eapply fan_out_keys; eauto.
@@ -207,10 +207,10 @@ Qed.
 Lemma step_next F limit s e s' t : step F limit s e = Some s' -> t < next_token s -> t < next_token s'.
 Proof.
   intros St Lt. destruct e as [metas frames ws|order|t' ws]; cbn [step] in *.
-  - unfold step_wake in St. destruct (blimit limit <? len frames); [discriminate|].
+  - unfold step_wake in St. destruct (_ || _); [discriminate|].
     destruct frames as [|f fr]; [injection St as <-; auto|].
     remember (f :: fr) as frames. cbn [clients] in St.
-    destruct (fan_out F (blimit limit) frames ws (clients s)) as [[cs' rm]|]; [|discriminate].
+    destruct (fan_out F (lim_of F limit) frames ws (clients s)) as [[cs' rm]|]; [|discriminate].
     injection St as <-. rewrite fold_remove_next, maybe_dec_next. auto.
   - unfold step_accept in St. destruct (negb _); [discriminate|].
     destruct (gen_meta (metadata s) order); [|discriminate]. injection St as <-.
